@@ -38,6 +38,27 @@ func AnalyseCountedLoop(info *types.Info, env *AffEnv, loop ast.Stmt, lenOf func
 		}
 		return env.Eval(e)
 	}
+	if lenOf != nil {
+		// len(made slice) also inside a larger expression (`len(in) - 1`)
+		cp := *env
+		prev := env.Val
+		cp.Val = func(e ast.Expr) (Aff, bool) {
+			if c, ok := Unparen(e).(*ast.CallExpr); ok && len(c.Args) == 1 {
+				if id, ok := c.Fun.(*ast.Ident); ok && id.Name == "len" {
+					if _, isB := info.Uses[id].(*types.Builtin); isB {
+						if a, ok := lenOf(c.Args[0]); ok {
+							return a, true
+						}
+					}
+				}
+			}
+			if prev != nil {
+				return prev(e)
+			}
+			return Aff{}, false
+		}
+		env = &cp
+	}
 	switch x := loop.(type) {
 	case *ast.RangeStmt:
 		cl := CountedLoop{Body: x.Body}
